@@ -146,7 +146,8 @@ def check_site(r, rule, nn, site, mode, spaceA, spaceB, self_policy, equal_lengt
         c = classify(nn, site, atom, pol, dinfo)
         by_construction = c[0] == "self" and c[1] and c[2] == c[3] and any(is_call(strip(x), "itertools.combinations") for t_ in (site.a, site.b) for x in walk(t_))
         if not by_construction:
-            rep.require(False, f"{q}:{site.line}: the assertion {'' if pol else 'not '}{show(atom, 80)} before the insertion cannot be discharged; cannot decide [{rule}]")
+            # an assertion is the author's stated belief; a false one raises AssertionError (a loud failure), it never drops or adds a pair silently
+            rep.assume(f"assertions in {q.rsplit('.', 1)[1]} are taken to hold (a failing assert raises; it cannot silently change the reported pairs)")
     # ---- classify guards
     thr, selfs, unknown, lenf = [], [], [], []
     for atom, pol in site.guards:
@@ -756,6 +757,10 @@ def check_comb_gen(r, rule):
     s = nn.summary(q)
     r.rep.analysed(q)
     seq = ("param", s.params[0][0])
+    # ``seq = str(seq)`` at the top (numpy hands in np.str_): the string form of the argument is the argument
+    str_seq = ("call", ("glob", "builtins.str"), (seq,), ())
+    if any(x == str_seq for x in walk(strip_all(s.ret))):
+        s = s.mapped(lambda t: subst(strip_all(t), {str_seq: seq}))
     lenseq = ("call", ("glob", "builtins.len"), (seq,), ())
     where = wh(r, q, s.func.node)
     ret = strip(s.ret)
@@ -763,8 +768,17 @@ def check_comb_gen(r, rule):
     def undecided(msg):
         r.rep.require(False, f"{q}: {msg}: outside the enumeration idiom list; cannot decide [{rule}]")
     # ---- shape recognition: a set accumulator filled by one add() inside  for d in range(..): for c in combinations(..)
+    from ..rules import small_rewrites as _small, lift_ite as _lift
+    from ..ssa import leaves as _leaves
+    early = []
     if head(ret) != "after":
-        return undecided(f"returned value {show(ret, 60)} is not a loop accumulator")
+        # early returns of the initial set are accepted when their condition makes the enumeration empty anyway (checked below)
+        lv = _leaves(_lift(rewrite(strip_all(s.ret), _small)))
+        accs = {strip(l) for _, l in lv if head(strip(l)) == "after"}
+        if len(accs) != 1:
+            return undecided(f"returned value {show(ret, 60)} is not a loop accumulator")
+        ret = accs.pop()
+        early = [(g, strip(l)) for g, l in lv if head(strip(l)) != "after" and head(strip(l)) != "raise"]
     outer = s.loops.get(ret[1])
     name = ret[2]
     adds = [e for e in s.events_of("mutate") if e["name"] == name and e["method"] == "add"]
@@ -787,6 +801,49 @@ def check_comb_gen(r, rule):
         return undecided(f"combinations over {show(base, 40)}")
     # ---- obligations
     init = strip(outer.init.get(name, NONE))
+    for g, leaf in early:
+        it_ = strip_all(outer.iterable)
+        lo_, hi_ = (const(0), it_[2][0]) if len(it_[2]) == 1 else (it_[2][0], it_[2][1])
+
+        def ub(t, facts):
+            t = strip(t)
+            if t in facts:
+                return facts[t]
+            if is_const(t) and isinstance(t[2], (int, float)):
+                return t[2]
+            if head(t) == "bin" and t[1] == "+":
+                return ub(t[2], facts) + ub(t[3], facts)
+            if is_call(t, "builtins.min") and t[2]:
+                return min(ub(a, facts) for a in t[2])
+            return float("inf")
+        # every way of satisfying the early-return condition must force  hi <= lo  (an empty range)
+        ok_e = strip_all(leaf) == strip_all(init)
+        disj = []
+        for cnd, pol in g:
+            disj.append([(a_, p_) for a_, p_ in lits(cnd, pol)])
+        # g is a conjunction of path conditions; each may be a disjunction when negated - enumerate the literals of positive 'or's
+        cases = [[]]
+        for cnd, pol in g:
+            c0 = strip(cnd)
+            if head(c0) == "or" and pol:
+                cases = [cs + [(x, True)] for cs in cases for x in c0[1]]
+            else:
+                cases = [cs + lits(c0, pol) for cs in cases]
+        for cs in cases:
+            facts = {}
+            for a_, p_ in cs:
+                a_ = strip(a_)
+                if head(a_) == "cmp" and is_const(strip(a_[3])) and isinstance(strip(a_[3])[2], int):
+                    k_ = strip(a_[3])[2]
+                    op_ = a_[1] if p_ else {"<=": ">", "<": ">=", ">": "<=", ">=": "<", "==": "!=", "!=": "=="}.get(a_[1])
+                    if op_ in ("<=", "=="):
+                        facts[strip(a_[2])] = k_
+                    elif op_ == "<":
+                        facts[strip(a_[2])] = k_ - 1
+            lo_v = strip(lo_)[2] if is_const(strip(lo_)) else None
+            ok_e = ok_e and lo_v is not None and ub(hi_, facts) <= lo_v
+        r.rep.ob(rule, q, ok_e, "an early return hands back the initial set only when no deletion is possible (the enumeration would be empty)", where,
+                 expected="return {seq} under a condition that empties range(1, ...)", found=show(leaf, 40), key="comb early return")
     is_set0 = (is_call(init, "builtins.set") and len(init[2]) == 1 and head(strip(init[2][0])) == "list" and tuple(map(strip, strip(init[2][0])[1])) == (seq,)) or \
               (head(init) == "set" and tuple(map(strip, init[1])) == (seq,))
     r.rep.ob(rule, q, is_set0, "the variant set starts as {seq} and is a set (0 deletions included, duplicates collapse)", where, expected="set([seq])", found=show(init, 60), key="comb init")
@@ -804,7 +861,9 @@ def check_comb_gen(r, rule):
         d = ctx.rf(size) + ctx.rf(strip_all(outer.elem)) - ctx.rf(strip_all(lenseq))
         r.rep.ob(rule, q, d.is_const() and d.const_value() == 0, "kept subsequences have length len(seq) - number of deletions", wh(r, q, subsets.node),
                  expected="combinations(seq, len(seq) - edit)", found=show(si, 80), key="comb subsets")
-    r.rep.ob(rule, q, not e.ctx.guards, "no variant is skipped", wh(r, q, e.node), expected="unguarded add", found=f"{len(e.ctx.guards)} guard(s)", key="comb unguarded")
+    asserted = {strip_all(a["cond"]) for a in s.events_of("assert")}
+    extra_g = [(g, pol) for g, pol in e.ctx.guards if (g, pol) not in tuple(outer.ctx.guards) and not (pol and strip_all(g) in asserted)]
+    r.rep.ob(rule, q, not extra_g, "no variant is skipped", wh(r, q, e.node), expected="unguarded add", found=f"{len(extra_g)} guard(s)", key="comb unguarded")
     # the variant string
     v = strip(e["args"][0])
     if idiom == "positions":
@@ -1852,6 +1911,8 @@ def check_rank2(r, rule, q):
 def _whole_variant_list(nn, q, v):
     """v is the dictionary entry itself (value of variant_dict.items() / .values() / variant_dict[key]), not a subset or regrouping of it."""
     v = strip(v)
+    while is_call(v) and head(strip(v[1])) == "glob" and strip(v[1])[1] in ("builtins.list", "builtins.tuple") and len(v[2]) == 1 and not v[3]:
+        v = strip(v[2][0])         # a copy of the position list holds the same positions
     if head(v) == "item" and v[2] == 1 and head(strip(v[1])) in ("iter", "citer") and is_mcall(strip(strip(v[1])[-1]), "items"):
         return nn.map_info(q, strip(strip(strip(v[1])[-1])[1])[1]) is not None
     if head(v) == "sub":
